@@ -70,7 +70,12 @@ Record store_code := {
   (* ModbusServerContext; atoms slave self.single, Defaults.UnitId inlined *)
   c_srv_default_unit : Z;
   c_srv_set_ok : expr;
-  c_srv_del_ok : expr
+  c_srv_del_ok : expr;
+  (* defaults: Defaults.ZeroMode (0/1) used when no zero_mode keyword is given; the create()
+     factories: start address and number of cells of a default block *)
+  c_ctx_default_zero : Z;
+  c_create_addr : Z;
+  c_create_size : Z
 }.
 
 (* ---------------------------------------------------------------- blocks *)
@@ -214,6 +219,11 @@ Definition cx_set (x : slavectx) (fx a : Z) (vs : list Z) : res slavectx :=
   Ok {| cx_zero := cx_zero x; cx_slots := cx_slots x;
         cx_blocks := set_nth (cx_blocks x) i
                        (blk_set (nth_block x i) (eval (cx_env x a) (c_ctx_set_addr C)) vs) |}.
+
+(* what ModbusSlaveContext() builds when a table / zero_mode is not passed *)
+Definition default_zero_mode : bool := z2b (c_ctx_default_zero C).
+Definition default_block : block :=
+  BSeq {| sb_addr := c_create_addr C; sb_vals := repeat 0 (Z.to_nat (c_create_size C)); sb_def := 0 |}.
 
 Definition cx_reset (x : slavectx) : slavectx :=
   {| cx_zero := cx_zero x; cx_slots := cx_slots x; cx_blocks := map blk_reset (cx_blocks x) |}.
